@@ -163,6 +163,8 @@ def c03():
             continue
         if r["mode"] == "np" and not info[r["prog"]]["cfree"]:
             continue
+        if r.get("reruns") is not None and r.get("confirm", 0) == 0:
+            continue      # (deviated once from the reference, never again in the repetitions of the same configuration: a starved run)
         by[r["prog"]].append(r)
     compared = 0
     for name, rs in by.items():
@@ -220,7 +222,10 @@ def c04():
         exact = r["mode"] != "np" or info[r["prog"]]["cfree"]
         if exact:
             bag_checked += 1
-            if want != got:
+            if want != got and r.get("reruns") is not None and r.get("confirm", 0) == 0:
+                v.notes.append("%s printed %s once (reference: %s) but none of %d repetitions of the same configuration did: not judged" %
+                               (r["id"], " ".join(sorted(r["prints"]))[:80], " ".join(e["bag"])[:80], r["reruns"]))
+            elif want != got:
                 v.violation("%s (%s) printed %s, the SAX semantics gives %s" % (r["prog"], r["mode"], " ".join(sorted(r["prints"])), " ".join(e["bag"])),
                             {"program": info[r["prog"]]["text"], "run": r["id"], "printed": r["prints"], "reference_bag": e["bag"]},
                             {"program": r["prog"], "mode": r["mode"], "kind": "bag"})
